@@ -56,6 +56,16 @@ PIPES = {
            {"correct_force_slope": {"region": "all", "strategy": "drift"},
             "correct_tip_offset": {"method": "gradient_zero_crossing"}}),
     "P5": ([TIP, "smooth_height", "correct_tip_offset"], {}),
+    # contact-point methods that fit (their estimate can fall outside of the
+    # data on bad curves, where the documented fallback applies)
+    "P6": ([TIP, "correct_force_offset", "correct_tip_offset"],
+           {"correct_tip_offset": {"method": "fit_constant_line"}}),
+    "P7": ([TIP, "correct_force_offset", "correct_tip_offset"],
+           {"correct_tip_offset": {"method": "fit_constant_polynomial"}}),
+    "P8": ([TIP, "correct_force_offset", "correct_tip_offset"],
+           {"correct_tip_offset": {"method": "fit_line_polynomial"}}),
+    "P9": ([TIP, "correct_force_offset", "correct_tip_offset"],
+           {"correct_tip_offset": {"method": "deviation_from_baseline"}}),
 }
 BADPIPES = {
     "B1": ([TIP, "bogus_step"], {}),                       # unknown, last
@@ -351,15 +361,77 @@ RATERS = {
                      names=None, lda=None, tree=True),
     "R_rf_dir": dict(regressor="Random Forest", training_set="__dir__",
                      names=None, lda=None, tree=True),
+    # caller-owned training sets whose CONTENT changes between calls while
+    # the object / the directory stays the same (variants A and B)
+    "R_et_memA": dict(regressor="Extra Trees", training_set="__memobj__A",
+                      names=None, lda=None, tree=True),
+    "R_et_memB": dict(regressor="Extra Trees", training_set="__memobj__B",
+                      names=None, lda=None, tree=True),
+    "R_svr_memA": dict(regressor="SVR (linear kernel)",
+                       training_set="__memobj__A", names=None, lda=None),
+    "R_rf_dirA": dict(regressor="Random Forest", training_set="__dirobj__A",
+                      names=None, lda=None, tree=True),
+    "R_rf_dirB": dict(regressor="Random Forest", training_set="__dirobj__B",
+                      names=None, lda=None, tree=True),
 }
 
 _RESOLVED = {}
 
 
-def resolve_rater(rid):
-    """concrete rater arguments (fresh objects on every call for tuples)"""
+def _variant_xy(variant):
+    """two training sets of equal shape and different content"""
+    if "__mem__" not in _RESOLVED:
+        from nanite.rate import IndentationRater
+        X, y = IndentationRater.load_training_set()
+        _RESOLVED["__mem__"] = (X[::4].copy(), y[::4].copy())
+    X, y = _RESOLVED["__mem__"]
+    X, y = X.copy(), y.copy()
+    if variant == "B":
+        y = y[::-1].copy()
+    return X, y
+
+
+def resolve_rater(rid, holder=None):
+    """concrete rater arguments (fresh objects on every call for tuples);
+    `holder` (a dict owned by one executor) keeps the caller-owned objects
+    of the A/B variants alive between calls"""
     import copy as _copy
     r = dict(RATERS[rid])
+    ts = r["training_set"]
+    if isinstance(ts, str) and ts.startswith("__memobj__"):
+        X, y = _variant_xy(ts[-1])
+        if holder is None:
+            r["training_set"] = (X, y)
+        else:
+            if "memobj" not in holder:
+                holder["memobj"] = (X.copy(), y.copy())
+            # in-place edit of the arrays the library has seen before
+            holder["memobj"][0][:] = X
+            holder["memobj"][1][:] = y
+            r["training_set"] = holder["memobj"]
+        return r
+    if isinstance(ts, str) and ts.startswith("__dirobj__"):
+        import pathlib
+        import shutil
+        import tempfile
+        from nanite.rate import IndentationRater
+        hold = holder if holder is not None else {}
+        if "dirobj" not in hold:
+            src = IndentationRater.get_training_set_path("zef18")
+            dst = tempfile.mkdtemp(prefix="nanite_verif_tsobj_")
+            shutil.copytree(src, dst + "/ts_user")
+            hold["dirobj"] = dst + "/ts_user"
+            hold["dirobj_resp"] = (pathlib.Path(hold["dirobj"])
+                                   / "train_response.txt").read_text()
+        resp = hold["dirobj_resp"]
+        if ts[-1] == "B":
+            lines = resp.splitlines()
+            head = [ln for ln in lines if ln.startswith("#")]
+            body = [ln for ln in lines if not ln.startswith("#")]
+            resp = "\n".join(head + body[::-1]) + "\n"
+        (pathlib.Path(hold["dirobj"]) / "train_response.txt").write_text(resp)
+        r["training_set"] = hold["dirobj"]
+        return r
     if r["training_set"] == "__mem__":
         if "__mem__" not in _RESOLVED:
             from nanite.rate import IndentationRater
@@ -417,6 +489,15 @@ SLICES = {
                  raters=["R_none", "R_None", "R_et", "R_rf",
                          "R_et_names", "R_et_lda", "R_svr", "R_et_mem",
                          "R_rf_dir", "R_svr_ldaF", "R_et_ldaF"]),
+    # caller-owned training sets edited in place between ratings
+    "rate3": dict(pipes=["P1"], badpipes=[],
+                  keys={"model_key": ["m_para", "m_cone"]},
+                  raters=["R_et_memA", "R_et_memB", "R_rf_dirA",
+                          "R_rf_dirB", "R_svr_memA"]),
+    # fit-based contact-point methods, also with details requested
+    "poc": dict(pipes=["P0", "P6", "P7", "P8", "P9"], badpipes=["B3"],
+                keys={"model_key": ["m_para"]},
+                raters=[], mutate_pl=True, fitpre1=False),
     "rate2": dict(pipes=["P0", "P1"], badpipes=[],
                   keys={"model_key": ["m_para", "m_bad"]},
                   raters=["R_svr", "R_svr_ldaF", "R_svrl", "R_svrl_ldaF",
